@@ -117,6 +117,26 @@ theorem sort_is_permutation {α : Type} (lt : α → α → Bool) (l : List α) 
   unfold insertionSort
   simpa using foldl_insertRight_perm lt l []
 
+/-- **The sort orders the members** whenever the comparator is a strict weak order on them (asymmetric,
+    and "not below" is transitive): no member of the result is strictly below an earlier one. This is
+    the partial form of "range queries return the members in order": the score comparators of ZRANGE,
+    ZRANK, ZPOP*, ZREMRANGEBYRANK satisfy the hypotheses, but they do not distinguish members of equal
+    score (witness below), and CompareLex (BYLEX) does not satisfy them (`comparelex_not_transitive_witness`). -/
+theorem sort_orders_partial {α : Type} (lt : α → α → Bool) (l : List α)
+    (hasym : ∀ a c, lt a c = true → lt c a = false)
+    (htrans : ∀ a c d, lt c a = false → lt d c = false → lt d a = false) :
+    SortedBy lt (insertionSort lt l) := by
+  unfold insertionSort
+  exact foldl_insertRight_sorted lt hasym htrans l [] List.Pairwise.nil
+
+/-- non-vacuity of `sort_orders_partial`: `<` on naturals is such a comparator -/
+example : SortedBy (fun a c : Nat => decide (a < c)) (insertionSort (fun a c : Nat => decide (a < c)) [3, 1, 2]) :=
+  sort_orders_partial _ _ (by intro a c h; simp at *; omega) (by intro a c d h1 h2; simp at *; omega)
+
+/-- CompareLex is not transitive: b < ab (substring rule), ab < ac (bytes), ac < b (bytes) -/
+theorem comparelex_not_transitive_witness :
+    compareLex (b "b") (b "ab") < 0 ∧ compareLex (b "ab") (b "ac") < 0 ∧ compareLex (b "ac") (b "b") < 0 := by decide
+
 /-- ties: with two members of equal score both orders are model behaviours (the iteration order decides) -/
 theorem ties_follow_iteration_order_witness :
     insertionSort (scoreLt false) [(b "b", Flt.fin ⟨1, 0⟩), (b "a", Flt.fin ⟨1, 0⟩)]
